@@ -607,6 +607,30 @@ theorem parseLoop_wf : ∀ (fuel : Nat) (rest : List Nat) (i : Nat) (lit : List 
               · cases h
       · exact ih _ _ _ _ _ h
 
+/-! ### check_specifiers -/
+
+theorem checkSpecifiersGo_pos : ∀ (ps : List (Nat × Part)) (count : Nat) (req : Bool), count ≠ 0 →
+    checkSpecifiersGo ps count req =
+      if (specKeyed ps).all (· == req) then some (count + (specKeyed ps).length, req) else none := by
+  intro ps
+  induction ps with
+  | nil => intro count req _; simp [checkSpecifiersGo, specKeyed]
+  | cons p ps ih =>
+    intro count req hc
+    obtain ⟨i, part⟩ := p
+    cases part with
+    | literal l => simp [checkSpecifiersGo, specKeyed, ih count req hc]
+    | spec s =>
+      simp only [checkSpecifiersGo, specKeyed, hc, if_false, List.all_cons, List.length_cons]
+      by_cases hk : req = s.key.isSome
+      · subst hk
+        simp [ih (count + 1) _ (by omega)]
+        split <;> simp; omega
+      · have h1 : (req != s.key.isSome) = true := by simp [hk]
+        have h2 : (s.key.isSome == req) = false := by
+          cases req <;> cases hs : s.key.isSome <;> simp_all
+        simp [h1, h2]
+
 /-! ### text mode differs from bytes mode only by rejecting `b` -/
 
 theorem validType_text (c : Nat) (h : c ≠ 98) : validType .text c = validType .bytes c := by
